@@ -43,6 +43,7 @@ type checkRunner struct {
 	checkedRcpts         []string
 	checkedRcptsPerCheck map[module.CheckState]map[string]struct{}
 	checkedRcptsLock     sync.Mutex
+	checkedBody          map[module.CheckState]struct{}
 
 	resolver      dns.Resolver
 	doDMARC       bool
@@ -60,6 +61,7 @@ func newCheckRunner(msgMeta *module.MsgMetadata, log log.Logger, r dns.Resolver)
 	return &checkRunner{
 		msgMeta:              msgMeta,
 		checkedRcptsPerCheck: map[module.CheckState]map[string]struct{}{},
+		checkedBody:          map[module.CheckState]struct{}{},
 		log:                  log,
 		resolver:             r,
 		dmarcVerify:          dmarc.NewVerifier(r),
@@ -283,6 +285,16 @@ func (cr *checkRunner) checkBody(ctx context.Context, checks []module.Check, hea
 	}
 
 	return cr.runAndMergeResults(states, func(s module.CheckState) module.CheckResult {
+		// The same check may be referenced in several blocks, make
+		// sure it sees the body only once.
+		cr.checkedRcptsLock.Lock()
+		if _, ok := cr.checkedBody[s]; ok {
+			cr.checkedRcptsLock.Unlock()
+			return module.CheckResult{}
+		}
+		cr.checkedBody[s] = struct{}{}
+		cr.checkedRcptsLock.Unlock()
+
 		res := s.CheckBody(ctx, header, body)
 		return res
 	})
